@@ -241,6 +241,7 @@ def run_session(d):
                 out.append("ok")
                 continue
             meter.described = []
+            note = ""
             try:
                 if op[0] == "connect":
                     r = t.connect()
@@ -249,8 +250,12 @@ def run_session(d):
                     r = t.disconnect()
                     left, res = "na", "ok " + {"UnNumberedAcknowledgmentFrame": "ua"}.get(type(r).__name__, type(r).__name__)
                 else:
-                    r = t.send(b"" if op[1] == "-" else bytes.fromhex(op[1]))
+                    apdu = b"" if op[1] == "-" else bytes.fromhex(op[1])
+                    r = t.send(apdu)
                     left, res = "data " + hx(r), "ok " + hx(r)
+                    if not meter.requests or bytes(meter.requests[-1]) != LLC_CMD + apdu:
+                        # (what C18 demands of the frames written: their information fields, concatenated, are LLC header || APDU)
+                        note = " !PROP the information fields the meter received are not the LLC command header followed by the APDU"
             except fw._Timeout:
                 raise
             except Exception as e:  # noqa
@@ -260,7 +265,7 @@ def run_session(d):
             out.append(f"{left} | {res} | link={st},{conn.server_ssn},{conn.server_rsn},{conn.client_ssn},{conn.client_rsn} "
                        f"meter={meter.vs},{meter.vr},{meter.violations},{len(meter.pending)},{len(meter.script)} "
                        f"req={hx(meter.requests[-1]) if meter.requests else 'none'} nreq={len(meter.requests)} pending-line={len(frames)} "
-                       f"written={','.join(meter.described)}")
+                       f"written={','.join(meter.described)}" + note)
         return out
     return lines, impl
 
@@ -357,6 +362,18 @@ class C18(fw.Prop):
                     parts.append(blob[prev:c])
                     prev = c
                 yield case([["script", [hx(x) for x in parts]], ["send", "c001c1"]], "llc-bytes-in-data", gran=gran)
+        # requests that themselves begin with the LLC bytes (E6 E6 00 / E6 E7 00 / E6 E6), short and segmented; requests made of
+        # flag bytes, or with flag bytes exactly where the segments are cut
+        for gran in grans:
+            for head in ("e6e600", "e6e700", "e6e6", "e6e600e6e600"):
+                for n in (3, 200, 300):
+                    a = self.data(rng, 7)
+                    yield case([["script", [hx(LLC_RESP + a)]], ["send", head + self.data(rng, n).hex()]], "request-begins-like-llc", gran=gran)
+            req = bytearray(self.data(rng, 300))
+            for pos in (125, 252, 124, 126, 253):
+                req[pos] = 0x7E
+            yield case([["script", [hx(LLC_RESP + self.data(rng, 5))]], ["send", bytes(req).hex()]], "flags-at-the-cuts", gran=gran)
+            yield case([["script", [hx(LLC_RESP + self.data(rng, 5))]], ["send", "7e" * 300]], "request-of-flags", gran=gran)
         # request lengths x max information size
         for md in ([128, 16, 33] if not deep else [128, 127, 129, 130, 16, 17, 31, 64, 200]):
             for reqlen in ([1, 124, 125, 126, 300] if not deep else [1, 2, 122, 123, 124, 125, 126, 127, 128, 129, 250, 253, 254, 381, 700]):
